@@ -48,6 +48,13 @@ static const char* scripts[][4] = {
     {"z", "R", "R", "R"},  // 17
     {"R", "R", "z", "W"},  // 18
     {"R", "y", "z", "R"},  // 19
+    // '+' = create the next fiber of the set now, on my own kernel thread (late arrivals: a fiber that
+    // does not exist yet cannot queue early, which a pre-emption budget would otherwise have to arrange)
+    {"y", "y+", "+z", "R"},  // 20: two readers leave together; then a writer arrives, then a reader behind it
+    {"y", "y+", "+z", "W"},  // 21
+    {"y", "y+", "+z", "r"},  // 22
+    {"z", "z+", "+y", "W"},  // 23: two writers hand over; then a reader arrives, then a writer behind it
+    {"y", "W+", "+y", "W"},  // 24
 };
 
 // -Dgen=K -Dfibers=F: every program of F fibers with 1..K operations each over {R,W,r,w,y,z} is
@@ -55,10 +62,20 @@ static const char* scripts[][4] = {
 static char genbuf[4][8];
 static const char* cur[4];
 
+static fiber_t* f[4];
+static int g_created, g_total;
+static void* body(void* p);
+GHOST static int next_to_create(void) { return g_created < g_total ? g_created++ : -1; }
+GHOST static void set_f(int i, fiber_t* x) { f[i] = x; }
+GHOST static fiber_t* get_f(int i) { return f[i]; }
+
 static void* body(void* p) {
   int id = (int)(intptr_t)p;
   for (const char* s = cur[id]; *s; s++) {
-    if (*s == 'R') {
+    if (*s == '+') {
+      int i = next_to_create();
+      if (i >= 0) set_f(i, fiber_create(STK, body, (void*)(intptr_t)i));
+    } else if (*s == 'R') {
       fiber_rwlock_rdlock(&L);
       rd_acq(id, 0);
       int v = data;
@@ -105,7 +122,6 @@ int harness_main(void) {
   fiber_rwlock_init(&L);
   fmc_focus(&L, sizeof L);
   fmc_focus((void*)&data, sizeof data);
-  fiber_t* f[4];
   int nf = 0;
   fmc_begin();
   int gen = fmc_param("gen", 0);
@@ -120,12 +136,20 @@ int harness_main(void) {
     for (; nf < 4 && scripts[shape][nf] && scripts[shape][nf][0]; nf++) {}
     for (int i = 0; i < 4; i++) cur[i] = scripts[shape][i] ? scripts[shape][i] : "";
   }
-  int order[8];
-  rt_creation_order(nf, order);
-  for (int i = 0; i < nf; i++) f[order[i]] = fiber_create(STK, body, (void*)(intptr_t)order[i]);
-  fmc_yield();
+  int late = 0;  // the last `late` fibers are created by '+' steps of the others, in the order those execute
   for (int i = 0; i < nf; i++)
-    if (fiber_join(f[i], 0) != FIBER_SUCCESS) fmc_fail("rwlock harness: join failed");
+    for (const char* s = cur[i]; *s; s++) late += *s == '+';
+  if (late >= nf) late = nf - 1;
+  g_total = nf;
+  g_created = nf - late;
+  int order[8];
+  rt_creation_order(nf - late, order);
+  for (int i = 0; i < nf - late; i++) f[order[i]] = rt_create(order[i], STK, body, (void*)(intptr_t)order[i]);
+  fmc_yield();
+  for (int i = 0; i < nf; i++) {
+    if (!get_f(i)) fmc_fail("rwlock harness: fiber %d was not created before fiber %d finished (script error)", i, i - 1);
+    if (fiber_join(get_f(i), 0) != FIBER_SUCCESS) fmc_fail("rwlock harness: join failed");
+  }
   if (L.state.blob != 0) fmc_fail("rwlock: lock word is %lx after everybody unlocked", (unsigned long)L.state.blob);
   if (L.read_waiters.head->next || L.write_waiters.head->next) fmc_fail("rwlock: a waiter list is not empty at the end");
   rt_finish();
